@@ -11,7 +11,7 @@ CONSTANTS
   SkipChoices <- SkipNone
   CodeCfgs <- CodesNone
   FlagCfgs <- FlagsA
-  Alphabet <- AlphaA
+  Alphabet <- AlphaA3
   MaxReports = 3
   DisabledLeavesUnused = TRUE
   SubCodesMatch = TRUE
